@@ -54,8 +54,9 @@ def main():
         for name in sorted(os.listdir(HERE)):
             if name.startswith("replay_") and name.endswith(".py") and name != "replay_models.py":
                 __import__("bounded." + name[:-3])
+        import bounded.replay_models as rm   # the registry lives in the imported module, not in __main__
         i = inp.get("input") or {}
-        h = HANDLERS.get(i.get("kind"))
+        h = rm.HANDLERS.get(i.get("kind"))
         if h is None:
             res["detail"] = "no native replay handler for %r" % i.get("kind")
         else:
